@@ -698,8 +698,14 @@ class VecExpr:
                 t_ = type(n.ops[0])
                 body_ = {ast.NotEq: f"negb (PrimFloat.eqb e_ {b})", ast.Eq: f"PrimFloat.eqb e_ {b}", ast.Gt: f"PrimFloat.ltb {b} e_", ast.Lt: f"PrimFloat.ltb e_ {b}"}[t_]
                 return (f"(List.map (fun e_ => {body_}) {a})", "bv")
+        if isinstance(n, ast.Call) and isinstance(n.func, ast.Name) and n.func.id == "max" and len(n.args) == 2 and not n.keywords:
+            (a, ta), (b, tb) = self.tr(n.args[0]), self.tr(n.args[1])
+            if ta == tb == "f":
+                return (f"(pymax {a} {b})", "f")      # Python's max: the first argument unless the second compares greater
         if isinstance(n, ast.Subscript) and not isinstance(n.slice, (ast.Slice, ast.Tuple)):
             (a, ta), (i_, ti_) = self.tr(n.value), self.tr(n.slice)
+            if ta == "v" and ti_ == "n":
+                return (f"(List.nth {i_} {a} nan)", "f")     # a[i] for an integer index
             if ta == "v" and ti_ == "bv":
                 return (f"(bgather {i_} {a})", "v")     # boolean-mask indexing
             if ta == "v" and ti_ == "iv":
@@ -822,8 +828,17 @@ def gen_base():
                     and isinstance(c_.args[0].op, ast.Add) and isinstance(c_.args[0].left, ast.Name) and c_.args[0].left.id == start:
                 out_.append(c_)
         return out_
-    mt0 = ast.parse(_src("main.py"))
-    lt0 = ast.parse(_src("linesearch.py"))
+    class _ClipNorm(ast.NodeTransformer):
+        """np.minimum(np.maximum(E, lo), hi) is what np.clip(E, lo, hi) computes (NumPy defines clip as exactly this composition,
+        NaN propagation included): the two spellings are read as the same expression."""
+        def visit_Call(self, n):
+            self.generic_visit(n)
+            if ast.unparse(n.func) == "np.minimum" and len(n.args) == 2 and not n.keywords and isinstance(n.args[0], ast.Call) \
+                    and ast.unparse(n.args[0].func) == "np.maximum" and len(n.args[0].args) == 2 and not n.args[0].keywords:
+                return ast.copy_location(ast.Call(func=ast.parse("np.clip", mode="eval").body, args=[n.args[0].args[0], n.args[0].args[1], n.args[1]], keywords=[]), n)
+            return n
+    mt0 = ast.fix_missing_locations(_ClipNorm().visit(ast.parse(_src("main.py"))))
+    lt0 = ast.fix_missing_locations(_ClipNorm().visit(ast.parse(_src("linesearch.py"))))
     sites = [("main", c_, "x") for c_ in proj_sites(mt0, "minimize_lbfgsb", "x")] + [("linesearch", c_, "x0") for c_ in proj_sites(lt0, "line_search", "x0")]
     if len([1 for w, _, _ in sites if w == "main"]) != 1 or len([1 for w, _, _ in sites if w == "linesearch"]) != 3:
         raise TranslateError(f"projection sites: expected 1 in minimize_lbfgsb and 3 in line_search, found {[(w, ast.unparse(c_)) for w, c_, _ in sites]}")
@@ -1027,7 +1042,12 @@ def gen_mainloop():
          "From Coq Require Import List String ZArith Bool Floats.PrimFloat.", "From LBFGSB Require Import Model.FloatVec.", "Import ListNotations.", ""]
     mt = ast.parse(_src("main.py"))
     mf = _func(mt, "minimize_lbfgsb")
-    fails = [st for st in ast.walk(mf) if isinstance(st, ast.If) and ast.unparse(st.test) == "steplength is None"]
+    # the name the result of line_search is bound to (a local: its spelling is free)
+    lsv = [st.targets[0].id for st in ast.walk(mf) if isinstance(st, ast.Assign) and len(st.targets) == 1 and isinstance(st.targets[0], ast.Name)
+           and isinstance(st.value, ast.Call) and ast.unparse(st.value.func) == "line_search"]
+    if len(lsv) != 1:
+        raise TranslateError("minimize_lbfgsb: the result of line_search is not bound to one local name")
+    fails = [st for st in ast.walk(mf) if isinstance(st, ast.If) and ast.unparse(st.test) == lsv[0] + " is None"]
     if len(fails) != 1 or len(fails[0].body) != 1 or not isinstance(fails[0].body[0], ast.If):
         raise TranslateError("failed-line-search branch not found")
     inner = fails[0].body[0]
@@ -1436,6 +1456,434 @@ def gen_subspace_tail():
 
 
 GENERATORS["SubspaceTail.v"] = gen_subspace_tail
+
+
+def gen_cauchy_step():
+    """cauchy.get_cauchy_point: one pass of the breakpoint loop after the break test, on the WHOLE state (x_cp, c, p, d and the
+    scalars), by symbolic execution of the statements in order; and the advance to the next breakpoint."""
+    L = ["(* GENERATED from /repo/lbfgsb/cauchy.py by harness/translate.py - do not edit *)",
+         "From Coq Require Import List Bool Floats.PrimFloat.", "From LBFGSB Require Import Model.FloatVec Model.NumpyOps.", "Import ListNotations.", ""]
+    ct = ast.parse(_src("cauchy.py"))
+    fn = _func(ct, "get_cauchy_point")
+    eps = [st for st in fn.body if isinstance(st, ast.Assign) and ast.unparse(st.targets[0]) == "eps_f_sec"]
+    if len(eps) != 1 or ast.unparse(eps[0].value) != "np.finfo(float).eps":
+        raise TranslateError("eps_f_sec is not np.finfo(float).eps")
+    wh = [st for st in fn.body if isinstance(st, ast.While)]
+    if len(wh) != 1 or ast.unparse(wh[0].test) != "_i < len(sorted_t_idx)":
+        raise TranslateError("get_cauchy_point: loop not found")
+    body = [st for st in wh[0].body if not (isinstance(st, ast.Expr) and isinstance(st.value, ast.Call) and ast.unparse(st.value.func) == "display_start_point")
+            and not (isinstance(st, ast.If) and "logger" in ast.unparse(st.test))]
+    if not (isinstance(body[0], ast.If) and any(isinstance(b_, ast.Break) for b_ in body[0].body)):
+        raise TranslateError("get_cauchy_point: the loop does not start with the break test")
+    env = {"x": ("x", "v"), "grad": ("grad", "v"), "lb": ("lb", "v"), "ub": ("ub", "v"), "ibp": ("ibp", "n"), "t_cur": ("t_cur", "f"),
+           "delta_t": ("delta_t", "f"), "x_cp": ("x_cp", "v"), "c": ("c", "v"), "p": ("p", "v"), "d": ("d", "v"), "f_prime": ("fp", "f"),
+           "f_second": ("fs", "f"), "mats.theta": ("theta", "f"), "f2_org": ("f2_org", "f"), "eps_f_sec": ("0x1p-52%float", "f")}
+
+    class VE(VecExpr):
+        oracle = None
+        def tr(self, n):
+            if isinstance(n, ast.Call) and isinstance(n.func, ast.Attribute) and n.func.attr == "dot" and ast.unparse(n.func.value) == "W_b" \
+                    and len(n.args) == 1 and isinstance(n.args[0], ast.Call) and ast.unparse(n.args[0].func) == "bmv" and len(n.args[0].args) == 2 \
+                    and ast.unparse(n.args[0].args[0]) == "mats.invMfactors":
+                if VE.oracle is None:
+                    raise TranslateError("W_b.dot(bmv(...)) outside an update of f_prime / f_second")
+                a, ta = self.tr(n.args[0].args[1])
+                if ta != "v":
+                    raise TranslateError("bmv of a non-vector")
+                return (f"({VE.oracle} {self.env['W_b'][0]} {a})", "f")
+            return super().tr(n)
+    lets = []
+    cnt = [0]
+    def fresh(base):
+        cnt[0] += 1
+        return f"{base}{cnt[0]}_"
+    def setv(name, term, ty, cond=None):
+        old = env.get(name)
+        nm = fresh(name.replace(".", "_"))
+        if cond is not None:
+            if old is None or old[1] != ty:
+                raise TranslateError(f"conditional first assignment of {name}")
+            term = f"(if {cond} then {term} else {old[0]})"
+        lets.append(f"let {nm} := {term} in")
+        env[name] = (nm, ty)
+    def run(stmts, cond=None):
+        for i_, st in enumerate(stmts):
+            u = ast.unparse(st)
+            if u == "_i += 1":
+                return stmts[i_:]
+            if isinstance(st, ast.If) and u.startswith("if d[ibp] > 0:") and cond is None:
+                # if d[ibp] > 0: x_cp[ibp] = ub[ibp]  elif d[ibp] < 0: x_cp[ibp] = lb[ibp]
+                def store(b_):
+                    if not (len(b_) == 1 and isinstance(b_[0], ast.Assign) and ast.unparse(b_[0].targets[0]) == "x_cp[ibp]"):
+                        raise TranslateError("unexpected statement in the fixing of x_cp: " + u)
+                    v_, tv_ = VE(env).tr(b_[0].value)
+                    if tv_ != "f":
+                        raise TranslateError("x_cp[ibp] receives a non-scalar")
+                    return f"(np_setitem ibp {v_} {env['x_cp'][0]})"
+                if not (len(st.orelse) == 1 and isinstance(st.orelse[0], ast.If) and not st.orelse[0].orelse):
+                    raise TranslateError("unexpected shape of the fixing of x_cp: " + u)
+                c1_, t1_ = VE(env).tr(st.test)
+                c2_, t2_ = VE(env).tr(st.orelse[0].test)
+                if t1_ != "b" or t2_ != "b":
+                    raise TranslateError("non-boolean test in the fixing of x_cp")
+                setv("x_cp", f"(if {c1_} then {store(st.body)} else if {c2_} then {store(st.orelse[0].body)} else {env['x_cp'][0]})", "v")
+            elif isinstance(st, ast.If) and ast.unparse(st.test) == "mats.use_factor" and not st.orelse and cond is None:
+                rest_ = run(st.body, "use_factor")
+                if rest_ is not None:
+                    raise TranslateError("index advance inside the use_factor block")
+            elif isinstance(st, ast.AugAssign) and isinstance(st.target, ast.Name) and isinstance(st.op, (ast.Add, ast.Sub)):
+                nm = st.target.id
+                VE.oracle = {"f_prime": "wMc", "f_second": "wMv"}.get(nm)
+                v_, tv_ = VE(env).tr(st.value)
+                VE.oracle = None
+                old, to = env[nm]
+                op = "add" if isinstance(st.op, ast.Add) else "sub"
+                if to == "f" and tv_ == "f":
+                    setv(nm, f"(PrimFloat.{op} {old} {v_})", "f", cond)
+                elif to == "v" and tv_ == "v":
+                    setv(nm, f"(vinplace PrimFloat.{op} {old} {v_})", "v", cond)     # in place: the shape of the target is kept
+                else:
+                    raise TranslateError("unsupported augmented assignment " + u)
+            elif isinstance(st, ast.Assign) and len(st.targets) == 1 and ast.unparse(st.targets[0]) == "d[ibp]":
+                v_, tv_ = VE(env).tr(st.value)
+                if tv_ != "f" or cond is not None:
+                    raise TranslateError("unexpected store into d: " + u)
+                setv("d", f"(np_setitem ibp {v_} {env['d'][0]})", "v")
+            elif u == "W_b = mats.W[ibp, :]" and cond is None:
+                env["W_b"] = ("W_b", "v")
+            elif u == "t_old = copy.copy(t_cur)" and cond is None:
+                env["t_old"] = env["t_cur"]
+            elif isinstance(st, ast.Assign) and len(st.targets) == 1 and isinstance(st.targets[0], ast.Name) and st.targets[0].id in ("zb", "g_b", "f_second", "delta_t_min") and cond is None:
+                v_, tv_ = VE(env).tr(st.value)
+                if tv_ != "f":
+                    raise TranslateError("non-scalar value in " + u)
+                setv(st.targets[0].id, v_, "f")
+            else:
+                raise TranslateError("get_cauchy_point: unrecognised statement in the loop: " + u)
+        return None
+    rest = run(body[1:])
+    if rest is None:
+        raise TranslateError("get_cauchy_point: the index advance `_i += 1` was not found")
+    for k_ in ("delta_t_min", "t_old"):
+        if k_ not in env:
+            raise TranslateError(f"get_cauchy_point: {k_} is not assigned in the loop")
+    L.append("(* one pass after the break test.  W_b = mats.W[ibp, :]; wMc v w = v.dot(bmv(mats.invMfactors, w)) in the update of f_prime,\n"
+             "   wMv likewise in the update of f_second.  Result: (x_cp, c, p, d, f_prime, f_second, delta_t_min, t_old). *)")
+    L.append("Definition cauchy_step (wMc wMv : vec -> vec -> float) (theta f2_org : float) (use_factor : bool) (x grad lb ub W_b : vec) (ibp : nat)\n"
+             "    (t_cur delta_t : float) (x_cp c p d : vec) (fp fs : float) : vec * vec * vec * vec * float * float * float * float :=\n  "
+             + "\n  ".join(lets) + f"\n  ({env['x_cp'][0]}, {env['c'][0]}, {env['p'][0]}, {env['d'][0]}, {env['f_prime'][0]}, {env['f_second'][0]}, {env['delta_t_min'][0]}, {env['t_old'][0]}).")
+    want = ["_i += 1", "try:\n    ibp = sorted_t_idx[_i]\n    t_cur = t[ibp]\nexcept IndexError:\n    t_cur = np.inf", "delta_t = t_cur - t_old", "nseg += 1"]
+    if [ast.unparse(s_) for s_ in rest] != want:
+        raise TranslateError("get_cauchy_point: unexpected advance to the next breakpoint: " + " | ".join(ast.unparse(s_) for s_ in rest))
+    L.append("(* _i += 1; try: ibp = sorted_t_idx[_i]; t_cur = t[ibp]  except IndexError: t_cur = np.inf; delta_t = t_cur - t_old\n"
+             "   `rest` is sorted_t_idx[_i:] after the increment; result: (t_cur, delta_t) *)")
+    L.append("Definition cauchy_advance (t : vec) (rest : list nat) (t_old : float) : float * float :=\n"
+             "  let t_cur := match rest with [] => infinity | j_ :: _ => List.nth j_ t nan end in (t_cur, PrimFloat.sub t_cur t_old).")
+    return "\n".join(L) + "\n"
+
+
+GENERATORS["CauchyStep.v"] = gen_cauchy_step
+
+
+def gen_loop_control():
+    """main.minimize_lbfgsb: the test of the while loop, the if/elif chain that classifies the run after it, and the budget handed
+    to the line search, translated to Gallina over floats (f), integers (z) and booleans (b)."""
+    L = ["(* GENERATED from /repo/lbfgsb/main.py by harness/translate.py - do not edit *)",
+         "From Coq Require Import String ZArith Bool Floats.PrimFloat.", "Local Open Scope string_scope.", ""]
+    mt = ast.parse(_src("main.py"))
+    f = _func(mt, "minimize_lbfgsb")
+    env = {"projgr(x, grad, lb, ub)": ("pg", "f"), "_gtol": ("gt", "f"), "istate.nit": ("nit", "z"), "maxiter": ("maxiter", "z"),
+           "sf.nfev": ("nfev", "z"), "maxfun": ("maxfun", "z"), "istate.is_success": ("is_success", "b"), "maxls": ("maxls", "z")}
+
+    def tr(n):
+        u = ast.unparse(n)
+        if u in env:
+            return env[u]
+        if isinstance(n, ast.BoolOp) and isinstance(n.op, (ast.And, ast.Or)):
+            parts = [tr(v) for v in n.values]
+            if any(t != "b" for _, t in parts):
+                raise TranslateError("non-boolean operand in " + u)
+            acc = parts[0][0]
+            for q, _ in parts[1:]:
+                acc = f"({acc} {'&&' if isinstance(n.op, ast.And) else '||'} {q})"
+            return (acc, "b")
+        if isinstance(n, ast.UnaryOp) and isinstance(n.op, ast.Not):
+            a, ta = tr(n.operand)
+            if ta == "b":
+                return (f"(negb {a})", "b")
+        if isinstance(n, ast.Compare) and len(n.ops) == 1:
+            (a, ta), (b, tb) = tr(n.left), tr(n.comparators[0])
+            o = type(n.ops[0])
+            if ta == tb == "f" and o in (ast.Gt, ast.Lt, ast.GtE, ast.LtE):
+                return ({ast.Gt: f"(PrimFloat.ltb {b} {a})", ast.Lt: f"(PrimFloat.ltb {a} {b})", ast.GtE: f"(PrimFloat.leb {b} {a})", ast.LtE: f"(PrimFloat.leb {a} {b})"}[o], "b")
+            if ta == tb == "z" and o in (ast.Gt, ast.Lt, ast.GtE, ast.LtE):
+                return ({ast.Gt: f"(Z.gtb {a} {b})", ast.Lt: f"(Z.ltb {a} {b})", ast.GtE: f"(Z.geb {a} {b})", ast.LtE: f"(Z.leb {a} {b})"}[o], "b")
+        if isinstance(n, ast.BinOp) and isinstance(n.op, (ast.Sub, ast.Add)):
+            (a, ta), (b, tb) = tr(n.left), tr(n.right)
+            if ta == tb == "z":
+                return (f"({a} {'-' if isinstance(n.op, ast.Sub) else '+'} {b})%Z", "z")
+        if isinstance(n, ast.Call) and isinstance(n.func, ast.Name) and n.func.id == "min" and len(n.args) == 2 and not n.keywords:
+            (a, ta), (b, tb) = tr(n.args[0]), tr(n.args[1])
+            if ta == tb == "z":
+                return (f"(Z.min {a} {b})", "z")      # Python's min on integers
+        raise TranslateError("loop control: unsupported expression " + u)
+    wh = [n for n in ast.walk(f) if isinstance(n, ast.While)]
+    if len(wh) != 1:
+        raise TranslateError(f"expected exactly one while loop in minimize_lbfgsb, found {len(wh)}")
+    g_, tg_ = tr(wh[0].test)
+    if tg_ != "b":
+        raise TranslateError("the loop test is not boolean")
+    L.append("(* pg = projgr(x, grad, lb, ub), gt = _gtol, nit = istate.nit, nfev = sf.nfev *)")
+    L.append(f"Definition loop_guard (pg gt : float) (nit maxiter nfev maxfun : Z) (is_success : bool) : bool :=\n  {g_}.")
+    # the if/elif chain after the loop
+    post = f.body[f.body.index(wh[0]) + 1:]
+    chains = [st for st in post if isinstance(st, ast.If) and any(isinstance(s_, ast.Assign) and ast.unparse(s_.targets[0]) == "istate.task_str" for s_ in st.body)]
+    if len(chains) != 1:
+        raise TranslateError("final classification: expected one if/elif chain assigning istate.task_str after the loop")
+    # nothing between the loop and the chain may write the report
+    for st in post[:post.index(chains[0])]:
+        if any(isinstance(n_, ast.Attribute) and isinstance(n_.ctx, ast.Store) and ast.unparse(n_.value) == "istate" for n_ in ast.walk(st)):
+            raise TranslateError("final classification: istate is written between the loop and the chain")
+    node, out = chains[0], []
+    while True:
+        c_, tc_ = tr(node.test)
+        vals = {}
+        for s_ in node.body:
+            if not (isinstance(s_, ast.Assign) and len(s_.targets) == 1 and ast.unparse(s_.targets[0]) in ("istate.task_str", "istate.is_success", "istate.warnflag")
+                    and isinstance(s_.value, ast.Constant)):
+                raise TranslateError("final classification: unexpected statement " + ast.unparse(s_))
+            vals[ast.unparse(s_.targets[0])] = s_.value.value
+        if set(vals) != {"istate.task_str", "istate.is_success", "istate.warnflag"} or not isinstance(vals["istate.is_success"], bool) \
+                or not isinstance(vals["istate.warnflag"], int) or isinstance(vals["istate.warnflag"], bool):
+            raise TranslateError("final classification: a branch does not set message, success and warnflag to constants")
+        out.append((c_, f"({coq_string(vals['istate.task_str'])}, {'true' if vals['istate.is_success'] else 'false'}, {vals['istate.warnflag']}%Z)"))
+        if len(node.orelse) == 1 and isinstance(node.orelse[0], ast.If):
+            node = node.orelse[0]
+        elif node.orelse:
+            raise TranslateError("final classification has an unexpected else branch")
+        else:
+            break
+    L.append("(* the report (task_str, is_success, warnflag) after the loop; cur = what the loop left *)")
+    L.append("Definition final_report (pg gt : float) (nit maxiter nfev maxfun : Z) (cur : string * bool * Z) : string * bool * Z :=\n  "
+             + " else ".join(f"if {c_} then {v_}" for c_, v_ in out) + " else cur.")
+    # the returned OptimizeResult reads the report and the counters
+    rets = [st for st in post if isinstance(st, ast.Return)]
+    if len(rets) != 1 or not (isinstance(rets[0].value, ast.Call) and ast.unparse(rets[0].value.func) == "OptimizeResult"):
+        raise TranslateError("minimize_lbfgsb: final return not found")
+    kw = {k.arg: ast.unparse(k.value) for k in rets[0].value.keywords if k.arg != "hess_inv"}
+    want = {"fun": "f0", "jac": "grad", "nfev": "sf.nfev", "njev": "sf.ngev", "nit": "istate.nit", "status": "istate.warnflag", "message": "istate.task_str",
+            "x": "x", "success": "istate.is_success"}
+    if kw != want:
+        raise TranslateError("minimize_lbfgsb: unexpected fields of the returned result " + repr(kw))
+    # budget of the line search
+    calls = [n for n in ast.walk(f) if isinstance(n, ast.Call) and ast.unparse(n.func) == "line_search"]
+    if len(calls) != 1 or len(calls[0].args) != 16:
+        raise TranslateError("expected one call to line_search with 16 positional arguments")
+    lsf = _func(ast.parse(_src("linesearch.py")), "line_search")
+    if [a.arg for a in lsf.args.args][13] != "max_iter":
+        raise TranslateError("line_search: the 14th parameter is not max_iter")
+    b_, tb_ = tr(calls[0].args[13])
+    if tb_ != "z":
+        raise TranslateError("line-search budget is not an integer expression")
+    L.append("(* the max_iter argument of line_search *)")
+    L.append(f"Definition ls_budget (maxls maxfun nfev : Z) : Z := {b_}.")
+    # when the matrices are rebuilt although the new pair is rejected, and when they are reset: expressions over
+    # `update_fun_def is not None` and len(X)
+    def trn(n):
+        u = ast.unparse(n)
+        if u == "update_fun_def is not None":
+            return "has_upd"
+        if isinstance(n, ast.BoolOp) and isinstance(n.op, ast.And):
+            return "(" + " && ".join(trn(v) for v in n.values) + ")"
+        if isinstance(n, ast.Compare) and len(n.ops) == 1 and ast.unparse(n.left) == "len(X)" and isinstance(n.comparators[0], ast.Constant) \
+                and isinstance(n.comparators[0].value, int) and 0 <= n.comparators[0].value < 10:
+            k_ = n.comparators[0].value
+            if isinstance(n.ops[0], ast.Gt):
+                return f"(Nat.ltb {k_} (List.length X))"
+            if isinstance(n.ops[0], ast.Eq):
+                return f"(Nat.eqb (List.length X) {k_})"
+        raise TranslateError("rebuild rule: unsupported expression " + u)
+    ucalls = [n for n in ast.walk(f) if isinstance(n, ast.Call) and ast.unparse(n.func) == "update_lbfgs_matrices"]
+    forces = [[k.value for k in c_.keywords if k.arg == "is_force_update"] for c_ in ucalls]
+    if len(ucalls) != 2 or any(len(v_) != 1 for v_ in forces):
+        raise TranslateError("expected two calls of update_lbfgs_matrices, each with is_force_update")
+    in_loop = [c_ for c_ in ucalls if any(c_ is n_ for n_ in ast.walk(wh[0]))]
+    if len(in_loop) != 1:
+        raise TranslateError("expected one call of update_lbfgs_matrices inside the loop")
+    at_start = [c_ for c_ in ucalls if c_ is not in_loop[0]][0]
+    resets = [st for st in ast.walk(wh[0]) if isinstance(st, ast.If) and not st.orelse and [ast.unparse(b_) for b_ in st.body] == ["mats = LBFGSB_MATRICES(n)"]]
+    if len(resets) != 1:
+        raise TranslateError("expected one conditional reset of the matrices inside the loop")
+    L.append("(* is_force_update of the call of update_lbfgs_matrices in the loop / before the loop; the test of `mats = LBFGSB_MATRICES(n)` *)")
+    L.append("From Coq Require Import List.")
+    L.append(f"Definition force_update {{A}} (has_upd : bool) (X : list A) : bool := {trn([k.value for k in in_loop[0].keywords if k.arg == 'is_force_update'][0])}.")
+    L.append(f"Definition force_update_at_start {{A}} (X : list A) : bool := {trn([k.value for k in at_start.keywords if k.arg == 'is_force_update'][0])}.")
+    L.append(f"Definition reset_matrices {{A}} (has_upd : bool) (X : list A) : bool := {trn(resets[0].test)}.")
+    return "\n".join(L) + "\n"
+
+
+GENERATORS["LoopControl.v"] = gen_loop_control
+
+
+def gen_sf_src():
+    """scalar_function.ScalarFunction as a state machine: the closures of __init__ and the methods fun / grad / fun_and_grad /
+    update_x / _update_fun / _update_grad, statement by statement, as functions on the record of the object's attributes
+    (Model/SFPy.v) in the trace/exception monad."""
+    L = ["(* GENERATED from /repo/lbfgsb/scalar_function.py by harness/translate.py - do not edit *)",
+         "From Coq Require Import List ZArith Bool String.", "From LBFGSB Require Import Base.Res Model.SF Model.SFPy.", "Import ListNotations.", "Open Scope Z_scope.", "",
+         "Section SFSrc.", "  Variables (P F G S : Type).", "  Variable peqb : P -> P -> bool.", "  Variable fmul : F -> S -> F.", "  Variable gmul : G -> S -> G.",
+         "  Variable uf : P -> res F.", "  Variable ug : P -> res G.", "  Variable stencil : P -> list P.", "  Variable fdest : P -> F -> list F -> res G.",
+         "  Variable fdmode : bool.", "  Notation pst := (SFPy.pst P F G S).", "  Notation ev := (SF.ev P F G).", ""]
+    tree = ast.parse(_src("scalar_function.py"))
+    cls = _cls(tree, "ScalarFunction")
+    meth = {m.name: m for m in cls.body if isinstance(m, ast.FunctionDef)}
+    init = meth.get("__init__")
+    if init is None:
+        raise TranslateError("ScalarFunction.__init__ not found")
+    nodoc = lambda b: [s for s in b if not (isinstance(s, ast.Expr) and isinstance(s.value, ast.Constant))]
+    # ---- __init__: initial attribute values, closures, the two implementations of update_grad
+    ib = nodoc(init.body)
+    attrs = {}
+    for s in ib:
+        if isinstance(s, ast.Assign) and len(s.targets) == 1 and isinstance(s.targets[0], ast.Attribute) and ast.unparse(s.targets[0].value) == "self":
+            attrs.setdefault(s.targets[0].attr, []).append(ast.unparse(s.value))
+    want = {"x": ["np.atleast_1d(x0).astype(float)"], "nfev": ["0"], "ngev": ["0"], "f_updated": ["False"], "g_updated": ["False"],
+            "scaling_factor": ["1.0"], "_update_fun_impl": ["update_fun"], "_update_grad_impl": ["update_grad"]}
+    for k, v in want.items():
+        if attrs.get(k) != v:
+            raise TranslateError(f"ScalarFunction.__init__: self.{k} is assigned {attrs.get(k)}, expected {v}")
+    GHOST = {"H_updated", "_lowest_x", "_lowest_f", "nhev", "n"}      # written, never read by the package outside the tracking block
+    extra = set(attrs) - set(want) - GHOST
+    if extra:
+        raise TranslateError("ScalarFunction.__init__: unexpected attributes " + repr(sorted(extra)))
+    for fname in ("main.py", "linesearch.py", "base.py", "bfgsmats.py", "cauchy.py", "subspacemin.py"):
+        for n_ in ast.walk(ast.parse(_src(fname))):
+            if isinstance(n_, ast.Attribute) and n_.attr in GHOST - {"n"}:
+                raise TranslateError(f"{fname}: reads or writes the ghost attribute {n_.attr}")
+    clos = {s.name: s for s in ib if isinstance(s, ast.FunctionDef)}
+    if set(clos) != {"fun_wrapped", "update_fun"}:
+        raise TranslateError("ScalarFunction.__init__: unexpected top-level closures " + repr(sorted(clos)))
+    sel = [s for s in ib if isinstance(s, ast.If) and ast.unparse(s.test) == "callable(grad)"]
+    if len(sel) != 1 or len(sel[0].orelse) != 1 or not isinstance(sel[0].orelse[0], ast.If) or ast.unparse(sel[0].orelse[0].test) != "grad in FD_METHODS" or sel[0].orelse[0].orelse:
+        raise TranslateError("ScalarFunction.__init__: selection of update_grad of unexpected shape")
+    c_call = {s.name: s for s in sel[0].body if isinstance(s, ast.FunctionDef)}
+    c_fd = {s.name: s for s in sel[0].orelse[0].body if isinstance(s, ast.FunctionDef)}
+    if set(c_call) != {"grad_wrapped", "update_grad"} or set(c_fd) != {"update_grad"} or len(sel[0].body) != 2 or len(sel[0].orelse[0].body) != 1:
+        raise TranslateError("ScalarFunction.__init__: unexpected closures in the selection of update_grad")
+    first = [s for s in ib if isinstance(s, ast.If)][0]
+    if ast.unparse(first.test) != "not callable(grad) and grad not in FD_METHODS" or not isinstance(first.body[0], ast.Raise):
+        raise TranslateError("ScalarFunction.__init__: the validation of grad is missing")      # hence: not callable -> FD mode
+
+    # the local of fun_wrapped that receives the objective value (its spelling is free)
+    fxs = [st.targets[0].id for st in clos["fun_wrapped"].body if isinstance(st, ast.Assign) and len(st.targets) == 1 and isinstance(st.targets[0], ast.Name)
+           and ast.unparse(st.value) == "fun(np.copy(x), *args)"]
+    if len(fxs) != 1:
+        raise TranslateError("fun_wrapped: the call of the objective is not bound to one local name")
+    FX = fxs[0]
+    # ---- statements -> Gallina
+    CALLS = {"self._update_fun()": "_update_fun", "self._update_grad()": "_update_grad", "self._update_fun_impl()": "update_fun",
+             "self._update_grad_impl()": "(if fdmode then update_grad_fd else update_grad_callable)"}
+    SKIP = {f"if not np.isscalar({FX}):\n    try:\n        {FX} = np.asarray({FX}).item()\n    except (TypeError, ValueError) as e:\n        raise ValueError('The user-provided objective function must return a scalar value.') from e":
+            "the objective returns a scalar (F is abstract)",
+            f"if {FX} < self._lowest_f:\n    self._lowest_x = x\n    self._lowest_f = {FX}": "ghost attributes",
+            "self.H_updated = False": "ghost attribute"}
+
+    def ret_expr(n):
+        parts = n.elts if isinstance(n, ast.Tuple) else [n]
+        pre, vals = [], []
+        for q in parts:
+            u = ast.unparse(q)
+            if u == "self.f * self.scaling_factor":
+                pre.append("v_ <- get_f t ;;"); vals.append("fmul v_ (pscale t)")
+            elif u == "self.g * self.scaling_factor":
+                pre.append("g_ <- get_g t ;;"); vals.append("gmul g_ (pscale t)")
+            elif u == FX:
+                vals.append("fx")
+            else:
+                raise TranslateError("unsupported return value " + u)
+        if len(set(pre)) != len(pre):
+            raise TranslateError("unsupported return value " + ast.unparse(n))
+        return " ".join(pre) + " ret (" + ", ".join(vals + ["t"]) + ")"
+
+    def block(stmts, final, where):
+        if not stmts:
+            return final
+        st, rest = stmts[0], stmts[1:]
+        u = ast.unparse(st)
+        nxt = lambda: block(rest, final, where)
+        if u in SKIP:
+            return nxt()
+        if u == "return np.atleast_1d(grad(np.copy(x), *args))" and not rest:
+            return "g_ <- SF.call_g P F G ug x ;; ret (g_, t)"
+        if isinstance(st, ast.Return):
+            if rest:
+                raise TranslateError(f"{where}: statements after return")
+            return ret_expr(st.value)
+        if isinstance(st, ast.AugAssign) and isinstance(st.op, ast.Add) and u in ("self.nfev += 1", "self.ngev += 1"):
+            a = st.target.attr
+            return f"let t := set_{a} (p{a} t + 1) t in " + nxt()
+        if u in ("self.f_updated = False", "self.g_updated = False", "self.f_updated = True", "self.g_updated = True"):
+            return f"let t := set_{st.targets[0].attr} {'true' if st.value.value else 'false'} t in " + nxt()
+        if u == "self.x = np.atleast_1d(x).astype(float)":
+            return "let t := set_x x t in " + nxt()
+        if u == FX + " = fun(np.copy(x), *args)":
+            return "fx <- SF.call_f P F G uf x ;; " + nxt()
+        if u == "self.f = fun_wrapped(self.x)":
+            return "'(v_, t) <- fun_wrapped (px t) t ;; let t := set_f (Some v_) t in " + nxt()
+        if u == "self.g = grad_wrapped(self.x)":
+            return "'(g_, t) <- grad_wrapped (px t) t ;; let t := set_g (Some g_) t in " + nxt()
+        if u == "return np.atleast_1d(grad(np.copy(x), *args))":
+            return "g_ <- SF.call_g P F G ug x ;; ret (g_, t)"
+        if u == "self.g = approx_derivative(fun_wrapped, self.x, f0=self.f, **finite_diff_options)":
+            # followed by the zeroing of the variables fixed by lb == ub, part of the differencing oracle
+            tail = [ast.unparse(s_) for s_ in rest[:2]]
+            if tail != ["lb, ub = finite_diff_options['bounds']", "self.g[np.broadcast_to(np.equal(lb, ub), self.g.shape)] = 0.0"]:
+                raise TranslateError(f"{where}: unexpected statements after approx_derivative: " + " | ".join(tail))
+            return ("f0_ <- get_f t ;; '(g_, t) <- approx_derivative fun_wrapped stencil fdest (px t) f0_ t ;; let t := set_g (Some g_) t in "
+                    + block(rest[2:], final, where))
+        if isinstance(st, ast.Expr) and u in CALLS:
+            return f"t <- {CALLS[u]} t ;; " + nxt()
+        if isinstance(st, ast.If) and not st.orelse and isinstance(st.test, ast.UnaryOp) and isinstance(st.test.op, ast.Not):
+            c = ast.unparse(st.test.operand)
+            cond = {"self.f_updated": "f_updated t", "self.g_updated": "g_updated t", "np.array_equal(x, self.x)": "peqb x (px t)"}.get(c)
+            if cond is None:
+                raise TranslateError(f"{where}: unsupported test {c}")
+            if [ast.unparse(b_) for b_ in st.body] == ["self.update_x(x)"]:
+                inner = "update_x x t"
+            else:
+                inner = block(st.body, "ret t", where)
+            return f"t <- (if negb ({cond}) then {inner} else ret t) ;; " + nxt()
+        raise TranslateError(f"{where}: unsupported statement {u}")
+
+    def emit(name, coqname, node, params, rtype, proc):
+        args = [a.arg for a in node.args.args if a.arg != "self"]
+        if args != params:
+            raise TranslateError(f"{name}: unexpected parameters {args}")
+        body = block(nodoc(node.body), "ret t", name)
+        sig = "".join(f" ({p} : P)" for p in params)
+        L.append(f"  Definition {coqname}{sig} (t : pst) : M ev {rtype} :=\n    {body}.")
+    if ast.unparse(meth["update_x"].body[-1]) != "self.H_updated = False":
+        pass
+    emit("fun_wrapped", "fun_wrapped", clos["fun_wrapped"], ["x"], "(F * pst)", False)
+    emit("update_fun", "update_fun", clos["update_fun"], [], "pst", True)
+    emit("_update_fun", "_update_fun", meth["_update_fun"], [], "pst", True)
+    emit("grad_wrapped", "grad_wrapped", c_call["grad_wrapped"], ["x"], "(G * pst)", False)
+    emit("update_grad (callable)", "update_grad_callable", c_call["update_grad"], [], "pst", True)
+    emit("update_grad (finite differences)", "update_grad_fd", c_fd["update_grad"], [], "pst", True)
+    emit("_update_grad", "_update_grad", meth["_update_grad"], [], "pst", True)
+    emit("update_x", "update_x", meth["update_x"], ["x"], "pst", True)
+    emit("fun", "m_fun", meth["fun"], ["x"], "(F * pst)", False)
+    emit("grad", "m_grad", meth["grad"], ["x"], "(G * pst)", False)
+    emit("fun_and_grad", "m_fun_and_grad", meth["fun_and_grad"], ["x"], "(F * G * pst)", False)
+    if set(meth) != {"__init__", "update_x", "_update_fun", "_update_grad", "fun", "grad", "fun_and_grad"}:
+        raise TranslateError("ScalarFunction: unexpected methods " + repr(sorted(meth)))
+    L.append("  (* __init__: nfev = ngev = 0, nothing evaluated, scaling_factor = 1.0 (the caller's `one`) *)")
+    L.append("  Definition init (x0 : P) (one : S) : pst := mkp P F G S x0 None None false false 0 0 one.")
+    L.append("End SFSrc.")
+    return "\n".join(L) + "\n"
+
+
+GENERATORS["SFSrc.v"] = gen_sf_src
 
 
 def generate():
